@@ -16,6 +16,7 @@ from harness import common, export, gen  # noqa: E402
 common.import_repo()
 from numba_scfg.core.datastructures.ast_transforms import AST2SCFG, SCFG2AST  # noqa: E402
 from numba_scfg.core.datastructures.byte_flow import ByteFlow  # noqa: E402
+from numba_scfg.core.datastructures.scfg import SCFG  # noqa: E402
 
 PROGRAMS = [
     "def f(a, b):\n    if a and b or not_used(a):\n        return 1\n    return 2",
@@ -66,7 +67,8 @@ def main():
                  [f"{L[j % 26]}{j // 26}_{j % 3}" for j in range(len(succ))],
                  [f"n{L[(j * 7) % 26]}{j}_1" for j in range(len(succ))],
                  [f"{L[(j * 5) % 26] * 2}{(j * 7) % 4}x{j}" for j in range(len(succ))]][i % 4]
-        scfg = export.mk_scfg(succ, names)
+        blocks = dict(export.mk_scfg(succ, names).graph)
+        scfg = SCFG(dict(blocks))
         try:
             scfg.restructure()
             out[f"g{i}"] = h(export.canonical_dump(scfg))
@@ -76,7 +78,8 @@ def main():
         # "always yields the identical result" also means not depending on what the process did earlier
         if i % 3 == 0:
             try:
-                again = export.mk_scfg(succ, names)
+                # every sixth input: a second graph over the very same block objects
+                again = SCFG(dict(blocks)) if i % 6 == 0 else export.mk_scfg(succ, names)
                 again.restructure()
                 d2 = h(export.canonical_dump(again))
             except Exception as e:  # noqa: BLE001
